@@ -5,12 +5,30 @@ ALL = ["C%02d" % i for i in range(1, 21)]
 TRUST = ("Trusted base: the VC generator in /verif/engine and go/ssa; assumed (K) contracts of the reflection-driven codec and of "
          "standard-library functions in /verif/contracts/*.spec (each used one is listed in the evidence); A-len, A-sum, A-scratch, "
          "A-pkginv (package invariants assumed on entry of exported functions); integers are mathematical with overflow obligations.")
+TECH = "contract-based deductive verification: SSA->SMT weakest-precondition VCs, discharged by z3/cvc5"
 CLAIMS = {
- "C11": ("contract-based deductive verification: SSA->SMT weakest-precondition VCs, discharged by z3/cvc5",
-         "DecodePatch, validatePatch, validateOperation and the Operation accessors are verified from their SSA against the property's "
-         "shape predicate (opShape over the JSON value, validOp over the decoded member map): err == nil iff well-formed array of valid "
-         "operations, nil Patch on error, accessors return the decoded members. Unbounded in patch length and content.",
+ "C01": (TECH, "Every function on the v5 Apply path (pointer walk, container primitives, the six operations, the dispatch loop) is verified from its SSA against one-level RFC 6902/6901 contracts: index arithmetic incl. negative indices and '-', member set/replace/remove, move = remove (before the destination is resolved) then add of the same node, copy inserts a fresh duplicate spelled as the output, test treats absent members and stored nulls as null, root replacement only by object/array. Unbounded in document, path and patch size.",
+         "Pointer-level (one container at a time): the composition of these member-wise effects over the whole tree to the RFC result is a meta step (containers form a tree without sharing; DESIGN M-tree). Decoder/encoder behaviour is assumed (K1-K5, K11, K12). "),
+ "C02": (TECH, "merge, mergeDocs, pruneNulls, pruneDocNulls, pruneAryNulls and doMergePatch are verified from their SSA: every branch of RFC 7396's pseudo-code is pinned to a branch of the code by call-site clauses (null member => remove, new member => stored after pruning, existing member => recursive merge), arrays are left untouched (frame), ill-formed inputs are rejected.",
+         "Member-dispatch level: value-level equality with the recursive RFC function is a meta step (M-tree); assumes A-merge-entry (no node holding the text null exists when MergePatch starts), K1, K2, K12. "),
+ "C05": (TECH, "The order clauses of the container contracts (existing key keeps its position, new key is appended, removal keeps the order of the rest), the frame clauses (untouched children, parsed nodes and raw bytes are not written) and TrustMarshalJSON's emission order (members written in keys order, one name/value per key) are verified from the SSA.",
+         "Document-order of keys from the decoder and literal-preserving compaction are assumed (K1, K10, K11). "),
+ "C06": (TECH, "lazyNode.equal is verified (recursively, against its own contract) for: null equals only null, strings compared by unescaped value, kind mismatches unequal, objects need the same member names with null/non-null agreement, arrays the same length and null/non-null pattern; Equal rejects ill-formed input. No panic on any input.",
+         "One level at a time (the recursive composition to full structural equality is by the function's own contract on children); scalar comparison by compacted text is assumed to coincide with literal equality (K10). "),
+ "C07": (TECH, "mergeDocs/merge in mergeMerge mode are verified: null members of the second patch are kept (never removed, key list extended), new members are stored unpruned, existing members are merged recursively, and only the listed callees may be called (no pruning on the merge-merge path).",
+         "Member-dispatch level; the composition law itself (apply P1 then P2 = apply the merged patch) is not mechanised. "),
+ "C08": (TECH, "Error-attribute postconditions (isTestFailed / isMissing / isCopyLimit = errors.Is / errors.As) are verified on every return of the primitives and the six operations from the constant %w format strings; Apply returns (nil, err) at the first failing operation (loop invariant) and every error path of the exported wrappers returns a nil document.",
+         "fmt.Errorf / errors.Unwrap contracts are assumed; package-level error variables are assumed never reassigned. "),
+ "C11": (TECH, "DecodePatch, validatePatch, validateOperation and the Operation accessors are verified from their SSA against the property's shape predicate (opShape over the JSON value, validOp over the decoded member map): err == nil iff well-formed array of valid operations, nil Patch on error, accessors return the decoded members. Unbounded in patch length and content.",
          "Relies on K3 (string), K5 (Patch), K6 (interface{}) decoder contracts and json.Valid <=> wf (trusted here, subject of C16). "),
+ "C12": (TECH, "Patch.copy is verified: the total is increased by exactly the size of the duplicate as spelled in the output (compact, HTML-escaped per the call's options) before it is compared; the error is the copy-limit error iff limit > 0 and total > limit, using the per-call option; nothing is inserted when over the limit; other operations cannot touch the total (frame); NewApplyOptions copies the package defaults.",
+         "K11 (MarshalEscaped spells a raw node as the output does); A-sum (the running total stays below 2^62). The legacy root package is not covered yet. "),
+ "C13": (TECH, "Both modes of the three remove functions are verified in one contract each: an existing target is removed regardless of the option, an absent member / out-of-range index / unreachable parent is skipped (state unchanged, nil) with the option and an error without it, a negative index with negative indices disabled is an error in both modes.",
+         "That no other function reads the option is checked only through the contracts of the functions that receive it. "),
+ "C14": (TECH, "ensurePathExists is verified for: lookups and stores use the RFC 6901-decoded token (call-site clauses), array padding appends at the end, the number of padding nulls of a created array is derived from the next token, containers and the root stay well-formed; Patch.add calls it before resolving the parent.",
+         "The whole-path postcondition (afterwards the parent resolves) is not mechanised; K1, K2, strconv contracts assumed. "),
+ "C15": (TECH, "TrustMarshalJSON is verified to write '{', the members in keys order as name ':' value separated by ',', and '}', escaping names and values per the object's options (default escape); RedirectMarshalJSON never reports an unknown node type under the node invariant; ApplyIndent re-indents the marshalled output.",
+         "Well-formedness of the encoder's output and of Indent is assumed (K10-K12); the loss of options on objects parsed by a test operation is a known finding candidate not yet covered. "),
 }
 NA_REASON = {
  "C17": "reflection-driven codec over arbitrary Go types and relational equivalence with encoding/json are outside what function contracts within reach of an SSA-level VC generator can express (DESIGN.md section 15)",
